@@ -529,7 +529,12 @@ func faultRun(args []string) error {
 			// tag-value text around the version tag: bytes before it, values after it
 			pre := pick(r, []string{"", "\xff", "\xff\xfe\xfd", "\u023a\u023e", "  ", "# ", "\xc3"})
 			val := pick(r, []string{"", " ", " SPDX-2.3", "SPDX-2.3", " 2.3", " SPDX-2.3 SPDX-9.9", " SPDX-2.2\r", "\t"})
-			tail := pick(r, []string{"", "\n", "\nDataLicense: CC0-1.0\n", "\r\n"})
+			tail := pick(r, []string{"", "\n", "\nDataLicense: CC0-1.0\n", "\r\n",
+				"\nPackageLicenseComments: <text>never closed\nmore text\n", "\nLicenseComments: <text>a</text>\nPackageComment: <text>open\n"})
+			if r.Intn(4) == 0 {
+				// a multi-line text value that is never closed, BEFORE any version line
+				pre = "PackageName: x\nPackageComment: <text>unterminated comment\nstill inside\n" + pre
+			}
 			runCase("tag-value", nil, []byte(pre+"SPDXVersion:"+val+tail))
 		case 0:
 			b := make([]byte, r.Intn(200))
